@@ -58,6 +58,9 @@ def run_trace(tid, events):
             elif k == "free":
                 if ev.get("how") == "with":
                     d.__exit__(None, None, None)
+                elif ev.get("how") == "with_exc":
+                    exc = RuntimeError("loop body failed")
+                    d.__exit__(type(exc), exc, None)
                 else:
                     d.free()
         except ValueError:
@@ -83,7 +86,7 @@ def random_events(rng):
     for _ in range(rng.randint(3, 40)):
         r = rng.random()
         if r < 0.04:
-            evs.append({"e": "free", "how": rng.choice(["free", "with"])})
+            evs.append({"e": "free", "how": rng.choice(["free", "with", "with_exc"])})
             continue
         if style == "short":
             b = rng.choice([0, 1, P // 4, P // 2, P - 1])
